@@ -68,8 +68,9 @@ def scenarios(rng, tier, runner):
         nsub = rng.choice([2, 3])
         while True:
             ls, meta = datasets.build_lines(rng, name, B, D, nsub=nsub, same_structure=True, depth=rng.choice([1, 2, 2, 3]))
-            if not any(d // 1000 == 203 for d in meta["template"]):
-                break       # new reference values need the settle-and-refill protocol of the generator
+            if not any(d // 1000 == 203 for d in meta["template"]) and regs.operators_defined(meta["ed"], meta["template"], D):
+                break       # new reference values need the settle-and-refill protocol of the generator; operators the
+                            # edition does not define are applied by the (warning) decoder and not by the (strict) builder
         ls += ["ds.invalid", "ds.encode 1", "ds.decodelast 1 0 0", "dd.tocur", "ss.new",
                "ss.setfactors %d %s" % (nsub, rng.choice(datasets.FACTOR_SETS)), "ss.expand %d" % nsub,
                "ss.setfactors %d %s" % (nsub, rng.choice(datasets.FACTOR_SETS)), "ss.expand %d" % nsub,
